@@ -39,6 +39,7 @@ type Env struct {
 	allNamed  []types.Type
 	trusted   map[string]bool
 	mu        sync.Mutex
+	nonNilGlobals map[string]bool // package-level error variables assigned once, in init, from errors.New/fmt.Errorf
 	contractFiles []string
 	assumeScan []string
 }
@@ -145,6 +146,7 @@ func loadEnv(repo string) (*Env, error) {
 			})
 		}
 	}
+	e.findNonNilGlobals()
 	sort.Slice(e.allNamed, func(i, j int) bool { return e.allNamed[i].String() < e.allNamed[j].String() })
 	return e, nil
 }
@@ -165,4 +167,65 @@ func (e *Env) addFunc(f *ssa.Function) {
 
 func (e *Env) contractOf(f *ssa.Function) *Contract {
 	return e.contracts[funcName(f)]
+}
+
+// findNonNilGlobals: a global of interface type is known non-nil when its only store in the whole module is in a
+// package initialiser and stores the result of errors.New / fmt.Errorf.
+func (e *Env) findNonNilGlobals() {
+	e.nonNilGlobals = map[string]bool{}
+	good := map[*ssa.Global]bool{}
+	bad := map[*ssa.Global]bool{}
+	for _, p := range e.pkgs {
+		if e.modPath == "" || !strings.HasPrefix(p.PkgPath, e.modPath) {
+			continue
+		}
+		sp := e.prog.Package(p.Types)
+		if sp == nil {
+			continue
+		}
+		var fns []*ssa.Function
+		for _, m := range sp.Members {
+			if f, ok := m.(*ssa.Function); ok {
+				fns = append(fns, f)
+				fns = append(fns, f.AnonFuncs...)
+			}
+		}
+		for _, f := range e.funcs {
+			if f.Pkg == sp {
+				fns = append(fns, f)
+			}
+		}
+		for _, f := range fns {
+			for _, b := range f.Blocks {
+				for _, in := range b.Instrs {
+					st, ok := in.(*ssa.Store)
+					if !ok {
+						continue
+					}
+					g, ok := st.Addr.(*ssa.Global)
+					if !ok {
+						continue
+					}
+					okStore := false
+					if f.Name() == "init" && f.Parent() == nil {
+						if c, ok := st.Val.(*ssa.Call); ok {
+							if cal := c.Call.StaticCallee(); cal != nil && (cal.String() == "errors.New" || cal.String() == "fmt.Errorf") {
+								okStore = true
+							}
+						}
+					}
+					if okStore {
+						good[g] = true
+					} else {
+						bad[g] = true
+					}
+				}
+			}
+		}
+	}
+	for g := range good {
+		if !bad[g] {
+			e.nonNilGlobals["G:"+g.Pkg.Pkg.Name()+"."+g.Name()] = true
+		}
+	}
 }
